@@ -59,8 +59,10 @@ structure Graph where
 
 def Graph.empty : Graph := { versions := [], nodes := [], edges := [], root := none }
 
-/-- the local fn `add_node`: returns the node (name) the version string resolves to -/
-def addNode (g : Graph) (vs : JStr) : Graph × JStr :=
+/-- the local fn `add_node` without its ambiguity check: the node (name) the version string resolves to. A version string
+`a~b` registers the keys `a` (first) and `b` (second) for ONE node named `a~b`, a plain string `v` registers the key `v` for
+its own node; each with `entry(..).or_insert(..)`: a key that is registered already keeps its meaning -/
+def addNodeRaw (g : Graph) (vs : JStr) : Graph × JStr :=
   match splitOnce TILDE vs with
   | some (client, server) =>
     let (g1, node) :=
@@ -77,34 +79,106 @@ def addNode (g : Graph) (vs : JStr) : Graph × JStr :=
     | some (_, n) => (g, n)
     | none => ({ g with versions := g.versions ++ [(vs, (Split.none, vs))], nodes := g.nodes ++ [vs] }, vs)
 
+/-- the node a key stands for -/
+def keyNode (g : Graph) (k : JStr) : Option JStr := (AList.lookup k g.versions).map (·.2)
+
+/-- the local fn `add_node`: for `client~server` both halves must (now) stand for the node of this very version string,
+otherwise `bail!("ambiguous version …")` = `none` -/
+def addNode (g : Graph) (vs : JStr) : Option (Graph × JStr) :=
+  let r := addNodeRaw g vs
+  match splitOnce TILDE vs with
+  | some (_, server) => if r.2 = vs ∧ keyNode r.1 server = some vs then some r else none
+  | none => some r
+
 def EXT_TINY : JStr := jstr ".tiny"
 def EXT_DIFF : JStr := jstr ".tinydiff"
 
-/-- one iteration of the `read_dir` loop; `none` = `bail!` -/
-def addFile (g : Graph) (file : JStr × Bytes) : Option Graph :=
+/-- what a file name says: the version it is for and, for a diff, the parent version (`entries` of `resolve`) -/
+structure Entry where
+  parent : Option JStr
+  version : JStr
+  content : Bytes
+  deriving Repr, DecidableEq, BEq
+
+/-- `none` = `bail!` (a `.tinydiff` stem without `#`), `some none` = the file is ignored -/
+def parseFile (file : JStr × Bytes) : Option (Option Entry) :=
   match stripSuffix EXT_TINY file.1 with
-  | some vs =>
-    let (g1, v) := addNode g vs
-    match g1.root with
-    | some _ => none
-    | none => some { g1 with root := some (v, file.2) }
+  | some vs => some (some { parent := none, version := vs, content := file.2 })
   | none =>
     match stripSuffix EXT_DIFF file.1 with
     | some raw =>
       match splitOnce HASH raw with
       | none => none
-      | some (parent, version) =>
-        let (g1, v) := addNode g version
-        let (g2, p) := addNode g1 parent
-        some { g2 with edges := g2.edges ++ [{ parent := p, child := v, content := file.2 }] }
-    | none => some g
+      | some (parent, version) => some (some { parent := some parent, version := version, content := file.2 })
+    | none => some none
 
-def addFiles : Graph → List (JStr × Bytes) → Option Graph
-  | g, [] => some g
-  | g, f :: fs =>
-    match addFile g f with
+def parseFiles : List (JStr × Bytes) → Option (List Entry)
+  | [] => some []
+  | f :: fs =>
+    match parseFile f with
     | none => none
-    | some g' => addFiles g' fs
+    | some oe =>
+      match parseFiles fs with
+      | none => none
+      | some es => some (oe.toList ++ es)
+
+/-- the version strings of an entry in the order `resolve` hands them to `add_node` -/
+def Entry.versions (e : Entry) : List JStr := e.version :: e.parent.toList
+
+def isSplit (vs : JStr) : Bool := vs.contains TILDE
+
+/-- the first pass: every `client~server` version string of every file name -/
+def addNodes : Graph → List JStr → Option Graph
+  | g, [] => some g
+  | g, vs :: rest =>
+    match addNode g vs with
+    | none => none
+    | some (g', _) => addNodes g' rest
+
+/-- one iteration of the second pass; `none` = `bail!` (ambiguous version, second diff for an edge, second root) -/
+def addEntry (g : Graph) (e : Entry) : Option Graph :=
+  match addNode g e.version with
+  | none => none
+  | some (g1, v) =>
+    match e.parent with
+    | some parent =>
+      match addNode g1 parent with
+      | none => none
+      | some (g2, p) =>
+        if g2.edges.any (fun x => x.parent == p && x.child == v) then none
+        else some { g2 with edges := g2.edges ++ [{ parent := p, child := v, content := e.content }] }
+    | none =>
+      match g1.root with
+      | some _ => none
+      | none => some { g1 with root := some (v, e.content) }
+
+def addEntries : Graph → List Entry → Option Graph
+  | g, [] => some g
+  | g, e :: es =>
+    match addEntry g e with
+    | none => none
+    | some g' => addEntries g' es
+
+/-- the scan of `resolve` on the files in processing order -/
+def scanListed (files : List (JStr × Bytes)) : Option Graph :=
+  match parseFiles files with
+  | none => none
+  | some es =>
+    match addNodes Graph.empty ((es.flatMap Entry.versions).filter isSplit) with
+    | none => none
+    | some g => addEntries g es
+
+/-- insertion into a list sorted by file name, before the first entry that is not smaller -/
+def insertFile (x : JStr × Bytes) : List (JStr × Bytes) → List (JStr × Bytes)
+  | [] => [x]
+  | y :: ys => if x.1 ≤ y.1 then x :: y :: ys else y :: insertFile x ys
+
+/-- `files.sort_by(|a, b| a.0.cmp(&b.0))`: `String` order = order of the UTF-8 bytes = order of the code points (the
+lexicographic order of `List Nat`); a stable sort, here written as an insertion sort -/
+def sortFiles (dir : List (JStr × Bytes)) : List (JStr × Bytes) := dir.foldr insertFile []
+
+/-- the directory scan of `resolve`: `dir` = the files in `read_dir` order -/
+def scan (dir : List (JStr × Bytes)) : Option Graph := scanListed (sortFiles dir)
 
 def children (g : Graph) (n : JStr) : List JStr :=
   (g.edges.filter (fun e => e.parent == n)).map (·.child)
@@ -124,7 +198,7 @@ structure Resolved (M : Type) where
   rootMapping : M
 
 def resolve {M D : Type} (c : Content M D) (dir : List (JStr × Bytes)) : Option (Resolved M) :=
-  match addFiles Graph.empty dir with
+  match scan dir with
   | none => none
   | some g =>
     match g.root with
@@ -140,9 +214,9 @@ def resolve {M D : Type} (c : Content M D) (dir : List (JStr × Bytes)) : Option
 def get {M : Type} (r : Resolved M) (name : JStr) : Option (Split × JStr) :=
   AList.lookup name r.graph.versions
 
-/-- `Graph::find_edge(a, b)`: petgraph walks the outgoing edges of `a` newest first, so among parallel edges (they only
-arise when two different version strings alias to the same node, i.e. outside the well-formed domain) the one added
-last is found -/
+/-- `Graph::find_edge(a, b)`: petgraph walks the outgoing edges of `a` newest first, so among parallel edges the one
+added last would be found (`resolve` refuses a second diff for an edge, so a resolved graph has none:
+`Thm.C05.resolved_noParallel`) -/
 def findEdge (g : Graph) (a b : JStr) : Option Edge :=
   (g.edges.filter (fun e => e.parent == a && e.child == b)).getLast?
 
@@ -215,6 +289,28 @@ def keyKind (k vs : JStr) : Option Split :=
 def KeysDisjoint (vss : List JStr) : Prop :=
   ∀ v1, v1 ∈ vss → ∀ v2, v2 ∈ vss → v1 ≠ v2 → ∀ k, k ∈ keysOf v1 → k ∉ keysOf v2
 
+/-- the `client~server` ones among the version strings -/
+def splitsOf (vss : List JStr) : List JStr := vss.filter isSplit
+
+/-- **ambiguous directory**: two different `client~server` version strings share a half (`a~b` with `c~b`, `a~c`, `b~c`,
+`b~a`, …) — a key would have to name two nodes -/
+def Ambiguous (vss : List JStr) : Prop := ¬ KeysDisjoint (splitsOf vss)
+
+/-- the `client~server` version string that has `k` as a half, and which half `k` is -/
+def ownerOf (vss : List JStr) (k : JStr) : Option (Split × JStr) :=
+  (splitsOf vss).findSome? fun n => (keyKind k n).map fun sp => (sp, n)
+
+/-- the node a version string in a file name stands for: `client~server` is its own node, a plain string is the
+`client~server` node it is a half of if there is one, else its own node -/
+def nodeOf (vss : List JStr) (vs : JStr) : JStr :=
+  if isSplit vs then vs else
+  match ownerOf vss vs with
+  | some (_, n) => n
+  | none => vs
+
+/-- the version strings that are the name of a node -/
+def nodeStrings (vss : List JStr) : List JStr := vss.filter fun v => isSplit v || (ownerOf vss v).isNone
+
 /-- the version strings a directory entry registers, in processing order -/
 def fileVersions (f : JStr × Bytes) : List JStr :=
   match stripSuffix EXT_TINY f.1 with
@@ -242,6 +338,14 @@ def fileEdge (f : JStr × Bytes) : Option Edge :=
     | none => none
 
 def dirEdges (dir : List (JStr × Bytes)) : List Edge := dir.filterMap fileEdge
+
+/-- the edges between nodes that the diff files of a directory stand for -/
+def nodeEdges (dir : List (JStr × Bytes)) : List Edge :=
+  (dirEdges dir).map fun e =>
+    { e with parent := nodeOf (dirVersions dir) e.parent, child := nodeOf (dirVersions dir) e.child }
+
+/-- **two diffs for one edge**: two diff files join the same ordered pair of nodes -/
+def DupEdges (dir : List (JStr × Bytes)) : Prop := ¬ ((nodeEdges dir).map fun e => (e.parent, e.child)).Nodup
 
 /-- the root a directory entry stands for -/
 def fileRoot (f : JStr × Bytes) : Option (JStr × Bytes) :=
@@ -271,6 +375,14 @@ def NoParallel (g : Graph) : Prop :=
 /-- `KeysDisjoint`, decidable -/
 def keysDisjointB (vss : List JStr) : Bool :=
   vss.all fun v1 => vss.all fun v2 => v1 == v2 || (keysOf v1).all fun k => !(keysOf v2).contains k
+
+def ambiguousB (vss : List JStr) : Bool := !keysDisjointB (splitsOf vss)
+
+def distinctB {α : Type} [BEq α] : List α → Bool
+  | [] => true
+  | x :: rest => !rest.contains x && distinctB rest
+
+def dupEdgesB (dir : List (JStr × Bytes)) : Bool := !distinctB ((nodeEdges dir).map fun e => (e.parent, e.child))
 
 /-- a `.tinydiff` whose stem has no `#` (`resolve` bails on it) -/
 def badDiffName (f : JStr × Bytes) : Bool :=
